@@ -114,6 +114,7 @@ impl StdRoutingLogic {
         let advance_result = path.advance_ingress_with_validator(
             StandardValidator {
                 ingress: true,
+                crossed_over: std::cell::Cell::new(false),
                 now,
                 interface_link_type_lookup,
                 current_interface_id: ingress_interface_id,
@@ -183,6 +184,7 @@ impl StdRoutingLogic {
         // Advance the path
         let advance_result = path.advance_egress_with_validator(StandardValidator {
             ingress: false,
+            crossed_over: std::cell::Cell::new(false),
             current_interface_id: egress_if_id,
             now,
             interface_link_type_lookup,
@@ -477,6 +479,9 @@ impl StandardRoutingError {
 
 struct StandardValidator<'a, Lookup: Fn(u16) -> Option<AsRoutingInterfaceState>> {
     ingress: bool,
+    /// Set once the segment change was validated: the hop field validated after it is the first
+    /// one of the next segment, which the packet does not enter through its ingress interface.
+    crossed_over: std::cell::Cell<bool>,
     now: ScionNetworkTime,
     interface_link_type_lookup: Lookup,
     current_interface_id: u16,
@@ -505,8 +510,12 @@ impl<'a, Lookup: Fn(u16) -> Option<AsRoutingInterfaceState>> AdvanceValidator
         match self.ingress {
             // Checks done on ingress
             true => {
-                if self.current_interface_id != 0
-                    && ingress_interface != 0
+                // The ingress interface of the hop field after a segment change is the other
+                // segment's interface towards its origin (zero, or non-zero on a shortcut path),
+                // not the one the packet arrived on: it is not checked. Every other hop field has
+                // to name the interface the packet arrived on, also when it names none.
+                if !self.crossed_over.get()
+                    && self.current_interface_id != 0
                     && ingress_interface != self.current_interface_id
                 {
                     return Err(StandardRoutingError::InvalidIngressInterface {
@@ -635,7 +644,10 @@ impl<'a, Lookup: Fn(u16) -> Option<AsRoutingInterfaceState>> AdvanceValidator
         };
 
         match segment_change_valid {
-            true => Ok(()),
+            true => {
+                self.crossed_over.set(true);
+                Ok(())
+            }
             false => Err(StandardRoutingError::InvalidSegmentChange { hop_index }),
         }
     }
